@@ -15,6 +15,9 @@ fn core_only(rng: &mut Rng, with_timers: bool) -> wf::WfRecipe {
         if let Block::Step(items) = b {
             for it in items.iter_mut() {
                 if let Item::Comp(c) = it {
+                    // a text value that starts with a number is read alike by every extension set only when a `%unit` follows
+                    // (without it ADVANCED_UNITS documents `{1/2 cup}` as number + unit): such values get a unit here
+                    if let Some(q) = &mut c.qty { if q.unit.is_none() && matches!(&q.val, wf::Val::Text(t) if t.starts_with(|ch: char| ch.is_ascii_digit())) { q.unit = Some("g".into()); } }
                     if c.kind == Kind::Timer {
                         if with_timers {
                             // a timer with a time quantity in a unit the bundled converter knows
